@@ -528,7 +528,7 @@ def drive(tier, histories=None, maxn=None, blocks=None):
     q = tier == 'quick'
     return {'kind': 'drive', 'name': 'drive', 'cmd': 'drive', 'trace_module': 'CoreTrace',
             'trace_cfg': {'invariants': ['TraceReport']},
-            'x': 'histories=%d,maxn=%d,blocks=%d' % (histories or (10 if q else 60), maxn or (32 if q else 64), blocks or (18 if q else 40)),
+            'x': 'histories=%d,maxn=%d,blocks=%d' % (histories or (16 if q else 60), maxn or (40 if q else 64), blocks or (24 if q else 40)),
             'timeout': 900 if q else 7200}
 
 
@@ -537,13 +537,15 @@ DRIVE_RULE = (' In addition (R->T) a driver runs long random block histories (de
               'additions; undo of the newest block with probability 1/5, then redo on another branch) against Stump, Pollard and '
               'full/partial MapPollard (TotalRows 63 and 0) with block proofs taken from the real prover, and records every action and '
               'everything the instances show; TLC (spec/CoreTrace.tla) replays the logged actions on (n, live) and compares every '
-              'recorded leaf count, root list, leaf position, proof and update data with spec/Forest.tla; every deviating event '
+              'recorded leaf count, root list, leaf position, proof and update data with spec/Forest.tla; a light client follows every history '
+              '(Proof.Update with random remember choices, Proof.Undo) and TLC checks that it holds exactly what it must with the '
+              'canonical proof; every deviating event '
               'is reported and confirmed by running its history alone.')
-for _p in ('C01', 'C02', 'C06', 'C10', 'C11'):
+for _p in ('C01', 'C02', 'C06', 'C07', 'C08', 'C10', 'C11'):
     PLAN[_p]['stages'] = (lambda f: (lambda tier, seed: f(tier, seed) + [drive(tier)]))(PLAN[_p]['stages'])
     PLAN[_p]['rule'] += DRIVE_RULE
     for _t in ('quick', 'thorough'):
-        PLAN[_p]['bounds'][_t] += ('; driver: 10 histories of 18 blocks up to 32 leaves' if _t == 'quick'
+        PLAN[_p]['bounds'][_t] += ('; driver: 16 histories of 24 blocks up to 40 leaves' if _t == 'quick'
                                    else '; driver: 60 histories of 40 blocks up to 64 leaves')
 
 
